@@ -16,6 +16,7 @@ from vlib import Check, run_tlc, tlc_ok, MachineryError
 
 PROP = "C08"
 WORK = os.path.join(vlib.OUT, "c08")
+RUN = os.path.join(WORK, "run%d" % os.getpid())     # per-process scratch: concurrent checks must not share unit files
 NPAR = max(2, min(8, vlib.NCPU // 2))
 BATCH = 300
 
@@ -213,9 +214,9 @@ def run_cmd(cmd, timeout=120, cwd=None):
         return -9, "", "timeout"
 
 
-def run_layout_unit(c2m, rows, base, tag, engines):
+def run_layout_unit(c2m, rows, base, tag, engines, keep=False):
     """returns ({engine: (obs, ok, diag)}, gcc (obs, ok, diag), path)"""
-    d = os.path.join(WORK, "tu")
+    d = os.path.join(RUN, "tu")
     os.makedirs(d, exist_ok=True)
     fn = os.path.join(d, "%s_%d.c" % (tag, base))
     with open(fn, "w") as f:
@@ -235,6 +236,11 @@ def run_layout_unit(c2m, rows, base, tag, engines):
         g = (obs, rc == 0 and ended, "rc=%s %s" % (rc, err[-300:]))
         try:
             os.unlink(exe)
+        except OSError:
+            pass
+    if not keep:
+        try:
+            os.unlink(fn)
         except OSError:
             pass
     return res, g, fn
@@ -301,15 +307,6 @@ def _run_batches(c2m, jobs, tag, engines):
         return list(ex.map(lambda j: run_layout_unit(c2m, j[0], j[1], tag, engines), jobs))
 
 
-def _isolate(c2m, rows, idxs, tag, engines, who):
-    """a unit failed as a whole (compile error / crash) for `who` ('gcc' or an engine): run its rows alone"""
-    jobs = [([rows[i]], i) for i in idxs]
-    out = {}
-    for (rs, i), (res, g, fn) in zip(jobs, _run_batches(c2m, jobs, tag + "i", engines)):
-        out[i] = (res, g)
-    return out
-
-
 def judge_layout(c2m, rows, tag, engines, st, mutate=None):
     """three-way comparison of every row; returns list of (row index, engine, keys, text)"""
     per = {}                      # row index -> (res by engine, gcc)
@@ -319,19 +316,33 @@ def judge_layout(c2m, rows, tag, engines, st, mutate=None):
         st.units += 1
         bad = not g[1] or any(not res[e][1] for e in engines)
         if bad and len(rs) > 1:
-            redo += list(range(base, base + len(rs)))
+            redo.append((rs, base))
             continue
         for j in range(len(rs)):
             per[base + j] = ({e: (res[e][0].get(base + j), res[e][1], res[e][2]) for e in engines},
                              (g[0].get(base + j), g[1], g[2]))
-    if redo:
-        # a unit that does not compile / crashes: its rows are run in small units, then alone
-        small = [(rows[i:i + 1], i) for i in redo] if len(redo) <= 3 * BATCH else None
-        if small is None:
-            raise MachineryError("too many failing layout units (%d rows): %s" % (len(redo), tag))
-        for (rs, i), (res, g, fn) in zip(small, _run_batches(c2m, small, tag + "i", engines)):
+    # a unit that does not compile / crashes (for gcc or for an engine): halve it until the rows are alone
+    pending = redo
+    budget = 300
+    while pending:
+        nxt = []
+        halves = []
+        for rs, base in pending:
+            h = len(rs) // 2
+            halves += [(rs[:h], base), (rs[h:], base + h)]
+        if budget <= 0:
+            raise MachineryError("cannot isolate the declarations on which a layout unit fails (%d units left): %s" % (len(halves), tag))
+        budget -= len(halves)
+        for (rs, base), (res, g, fn) in zip(halves, _run_batches(c2m, halves, tag + "i", engines)):
             st.units += 1
-            per[i] = ({e: (res[e][0].get(i), res[e][1], res[e][2]) for e in engines}, (g[0].get(i), g[1], g[2]))
+            bad = not g[1] or any(not res[e][1] for e in engines)
+            if bad and len(rs) > 1:
+                nxt.append((rs, base))
+                continue
+            for j in range(len(rs)):
+                per[base + j] = ({e: (res[e][0].get(base + j), res[e][1], res[e][2]) for e in engines},
+                                 (g[0].get(base + j), g[1], g[2]))
+        pending = nxt
     found = []
     suspects = []
     for i, r in enumerate(rows):
@@ -366,8 +377,11 @@ def judge_layout(c2m, rows, tag, engines, st, mutate=None):
             else:
                 for j in range(len(rs)):
                     again[base + j] = (res[eng][0].get(base + j), True, "")
-        if len(lone) > 600:
-            raise MachineryError("too many rows to isolate (%d)" % len(lone))
+        dropped = lone[60:]                 # a c2m that fails on whole units: the first rows are isolated and reported
+        lone = lone[:60]
+        for k in dropped:
+            again[k] = (expected_obs(sub[k]) if not mutate else mutate(sub[k], expected_obs(sub[k])), True, "")
+        st.c2m_fail_not_isolated = getattr(st, "c2m_fail_not_isolated", 0) + len(dropped)
         jobs = [([sub[k]], k) for k in lone]
         for (rs, k), (res, g, fn) in zip(jobs, _run_batches(c2m, jobs, tag + "q", [eng])):
             st.units += 1
@@ -646,7 +660,7 @@ def parse_bv(out):
 
 def run_byvalue_unit(c2m, shapes, base, tag, engines, seed_):
     """build both sides, run; returns {engine: {(shape, test): result or 'crash:<signal>'}}, gcc-side diagnostics"""
-    d = os.path.join(WORK, "bv")
+    d = os.path.join(RUN, "bv")
     os.makedirs(d, exist_ok=True)
     name = "%s_%d" % (tag, base)
     lib, main = gen_byvalue_units(shapes, base, seed_)
@@ -679,7 +693,9 @@ def run_byvalue_unit(c2m, shapes, base, tag, engines, seed_):
             if ended and rc == 0:
                 break
             if last is None or last[0] in skip:
-                raise MachineryError("c2m %s fails on the by-value main %s before any test: rc=%s %s" % (eng, mainc, rc, err[-800:]))
+                # c2m does not get to a test at all (it rejects / crashes on the unit): the caller halves the unit
+                acc = {"__fail__": "rc=%s %s" % (rc, err.strip()[-300:])}
+                break
             acc[last] = "crash:rc=%s" % rc          # the test announced last did not return
             for t in ["gccself", "c2mself"] + ["cg_" + n for n in TESTS] + ["gc_" + n for n in TESTS]:
                 acc.setdefault((last[0], t), "skipped")   # the rest of this shape is not run
@@ -693,31 +709,6 @@ def run_byvalue_unit(c2m, shapes, base, tag, engines, seed_):
         except OSError:
             pass
     return results, gres
-
-
-def select_shapes(rows, per_group, mem_sizes, per_mem, seed_):
-    """representatives of the distinct by-value shapes among rows whose layout has no known deviation"""
-    groups = collections.defaultdict(dict)
-    for r in rows:
-        if r["alts"]:
-            continue
-        groups[(tuple(r["cls"]), r["sz"])].setdefault(leaf_sig(r), r)
-    rng = random.Random(seed_)
-    shapes = []
-    memk = sorted(k for k in groups if k[0] == ("MEMORY",) and k[1] > 16)
-    if len(memk) > mem_sizes:
-        keep = set(memk[:mem_sizes // 2]) | set(rng.sample(memk[mem_sizes // 2:], mem_sizes - mem_sizes // 2))
-    else:
-        keep = set(memk)
-    for k in sorted(groups, key=lambda k: (k[1], k[0])):
-        v = [groups[k][s] for s in sorted(groups[k])]
-        rng.shuffle(v)
-        if k[0] == ("MEMORY",) and k[1] > 16:
-            if k in keep:
-                shapes += v[:per_mem]
-        else:
-            shapes += v[:per_group]
-    return shapes, len(groups), sum(len(v) for v in groups.values())
 
 
 # ----------------------------------------------------------------------------------------------- classification probe (spec vs gcc)
@@ -763,7 +754,7 @@ def expected_sources(r):
 
 def run_class_probe(rows, tag):
     """gcc-only: where do the bytes of a by-value argument come from?  returns list of (row, expected, observed)"""
-    d = os.path.join(WORK, "probe")
+    d = os.path.join(RUN, "probe")
     os.makedirs(d, exist_ok=True)
     L = ["#include <stdio.h>", "#include <string.h>", "enum E { E0, E1, E2 };",
          "extern void c08_call(void (*fn)(void), const unsigned long *regs);",
@@ -823,7 +814,7 @@ K_BSS = "layout:static_object:tail_padding_not_allocated"
 
 def run_static_unit(c2m, rows, base, tag):
     """sizes of uninitialised file-scope and block-scope static objects: c2m (-S, bss items) and gcc (nm -S)"""
-    d = os.path.join(WORK, "st")
+    d = os.path.join(RUN, "st")
     os.makedirs(d, exist_ok=True)
     L = ["enum E { E0, E1, E2 };"]
     for j, r in enumerate(rows):
@@ -887,6 +878,16 @@ K_CLS = {"nc": "abi:classify:nested_aggregate_offset_ignored",
          "zc": "abi:classify:zero_width_bitfield_counts_as_integer"}
 
 
+def cleanup_scratch(keep_own=False):
+    import shutil
+    for n in os.listdir(WORK) if os.path.isdir(WORK) else []:
+        p_ = os.path.join(WORK, n)
+        if n.startswith("run") and os.path.isdir(p_):
+            own = p_ == RUN
+            if (own and not keep_own) or (not own and time.time() - os.path.getmtime(p_) > 7200):
+                shutil.rmtree(p_, ignore_errors=True)
+
+
 def tlc_jobs(tier):
     jobs = []
     for name, cfg, nparts, sim, depth in TIERS[tier]["jobs"]:
@@ -904,26 +905,56 @@ def bv_keys(r, eng, test, v):
     cls = ("INT" if cs == {"INTEGER"} else "SSE" if cs == {"SSE"} else "MEM" if cs == {"MEMORY"} else "X87" if "X87" in cs
            else "INT_SSE" if r["cls"] == ["INTEGER", "SSE"] else "SSE_INT" if r["cls"] == ["SSE", "INTEGER"] else "_".join(r["cls"]))
     cls += "%d" % (1 if r["sz"] <= 8 else 2 if r["sz"] <= 16 else 3)          # one eightbyte / two / more
+    if isinstance(v, str) and v.startswith("c2m fails"):
+        return ["abi:%s:c2m_fails_on_unit:%s" % (ENG_TAG.get(eng, eng), cls)]
     if test == "c2mself":
         return ["abi:%s:c2m_to_c2m:%s:%s" % (ENG_TAG.get(eng, eng), POS[n], cls) for k, n in enumerate(TESTS)
                 if not isinstance(v, int) or (v >> k) & 1]
+    if test in ("gc", "gccself"):          # only as the last test announced before a crash
+        if r["cdev"] and test == "gc":
+            return [K_CLS[f] for f in sorted(r["cdev"])]
+        return ["abi:%s:%s:crash:%s" % (ENG_TAG.get(eng, eng), "gcc_to_c2m" if test == "gc" else "gcc_to_gcc_called_from_c2m", cls)]
     d, n = test.split("_", 1)
     if r["cdev"]:
         return [K_CLS[f] for f in sorted(r["cdev"])]
     return ["abi:%s:%s:%s:%s" % (ENG_TAG.get(eng, eng), "c2m_to_gcc" if d == "cg" else "gcc_to_c2m", POS[n], cls)]
 
 
+def _bv_units(c2m, jobs, tag, engines, seed_):
+    """run by-value units; a unit on which c2m fails before any test is halved until the shape is alone"""
+    with ThreadPoolExecutor(max_workers=max(2, NPAR // 2)) as ex:
+        outs = list(ex.map(lambda j: run_byvalue_unit(c2m, j[0], j[1], tag, engines, seed_), jobs))
+    done_jobs, done_outs = [], []
+    budget = 60
+    for (rs, base), (res, gres) in zip(jobs, outs):
+        failing = [e for e in engines if "__fail__" in res[e]]
+        if not failing:
+            done_jobs.append((rs, base)); done_outs.append((res, gres))
+            continue
+        good = [e for e in engines if e not in failing]
+        if good:
+            done_jobs.append((rs, base)); done_outs.append(({e: res[e] for e in good}, gres))
+        if len(rs) == 1 or budget <= 0:
+            fake = {e: {(base + j, "cg_a1"): "c2m fails on the unit: " + res[e]["__fail__"] for j in range(len(rs))} for e in failing}
+            done_jobs.append((rs, base)); done_outs.append((fake, {}))
+            continue
+        budget -= 2
+        h = len(rs) // 2
+        j2, o2 = _bv_units(c2m, [(rs[:h], base), (rs[h:], base + h)], tag + "h", failing, seed_)
+        done_jobs += j2; done_outs += o2
+    return done_jobs, done_outs
+
+
 def judge_byvalue(c2m, shapes, tag, engines, seed_, stats, batch=40):
     """returns list of (shape index, engine, test, value) that failed twice"""
     jobs = [(shapes[b:b + batch], b) for b in range(0, len(shapes), batch)]
-    with ThreadPoolExecutor(max_workers=max(2, NPAR // 2)) as ex:
-        outs = list(ex.map(lambda j: run_byvalue_unit(c2m, j[0], j[1], tag, engines, seed_), jobs))
+    jobs, outs = _bv_units(c2m, jobs, tag, engines, seed_)
     fails = collections.defaultdict(dict)           # shape -> {(eng, test): v}
     for (rs, base), (res, gres) in zip(jobs, outs):
         bad = [k for k, v in gres.items() if v != 0]
         if bad:
             raise MachineryError("the generated by-value program fails with gcc on both sides: %s" % bad[:5])
-        for eng in engines:
+        for eng in res:
             for (i, t), v in res[eng].items():
                 stats["tests"] += 1
                 if v == "skipped":
@@ -936,10 +967,9 @@ def judge_byvalue(c2m, shapes, tag, engines, seed_, stats, batch=40):
         idx = sorted(fails)
         sub = [shapes[i] for i in idx]
         jobs = [(sub[b:b + 7], b) for b in range(0, len(sub), 7)]
-        with ThreadPoolExecutor(max_workers=max(2, NPAR // 2)) as ex:
-            outs = list(ex.map(lambda j: run_byvalue_unit(c2m, j[0], j[1], tag + "r", engines, seed_ + 1), jobs))
+        jobs, outs = _bv_units(c2m, jobs, tag + "r", engines, seed_ + 1)
         for (rs, base), (res, gres) in zip(jobs, outs):
-            for eng in engines:
+            for eng in res:
                 for (k, t), v in res[eng].items():
                     i = idx[k]
                     if v not in (0, "skipped") and (eng, t) in fails[i]:
@@ -1104,7 +1134,9 @@ def run(tier, mutate=None, only=None):
                        "natural alignment only (no packed/aligned attributes, no #pragma pack)",
                        "plain char and plain int bit-fields are signed",
                        "by-value values: padding bytes and inactive union members are not compared"]
-    return ck.finish()
+    rc = ck.finish()
+    cleanup_scratch()
+    return rc
 
 
 # ----------------------------------------------------------------------------------------------- replay / selftest
@@ -1116,7 +1148,7 @@ def replay(path):
     print("declaration:", decl_text(r["d"]))
     if case["kind"] == "layout":
         engines = [case["engine"]]
-        res, g, fn = run_layout_unit(c2m, [r], 0, "replay", engines)
+        res, g, fn = run_layout_unit(c2m, [r], 0, "replay", engines, keep=True)
         e = expected_obs(r)
         print("translation unit:", fn)
         print("spec :", e)
@@ -1133,7 +1165,7 @@ def replay(path):
         conf = judge_byvalue(c2m, [r], "replay", [case["engine"]], case.get("seed", 1), st, batch=1)
         for i, eng, t, v in conf:
             print("c2m %s: %s -> %s  keys %s" % (eng, t, v, ", ".join(bv_keys(r, eng, t, v))))
-        print("sources:", os.path.join(WORK, "bv", "replay_0_main.c"), os.path.join(WORK, "bv", "replay_0_lib.c"))
+        print("sources:", os.path.join(RUN, "bv", "replay_0_main.c"), os.path.join(RUN, "bv", "replay_0_lib.c"))
         bad = bool(conf)
     else:
         cs, gs, diag, fn = run_static_unit(c2m, [r], 0, "replay")
@@ -1166,7 +1198,8 @@ def selftest():
     print("selftest 1 (expected size corrupted): %s" % ("counted as SPEC-DISAGREES, no violation" if ok else "NOT handled: %s %s" % (vars(st), found[:2])))
     bad += not ok
     # (2) a wrapper around c2m that reports size 13 for every declaration of size 12
-    wrap = os.path.join(WORK, "c2m-liar.sh")
+    os.makedirs(RUN, exist_ok=True)
+    wrap = os.path.join(RUN, "c2m-liar.sh")
     with open(wrap, "w") as f:
         f.write("#!/bin/sh\n%s \"$@\" | sed -E 's/^D ([0-9]+) 12 /D \\1 13 /'\n" % c2m)
     os.chmod(wrap, os.stat(wrap).st_mode | stat.S_IEXEC)
@@ -1191,4 +1224,5 @@ def selftest():
     print("selftest 3 (c2m-compiled callee misreads its aggregate argument, %s): %s"
           % (decl_text(shapes[2]["d"]), "reported: %s" % hit if ok else "NOT detected: %s" % conf[:5]))
     bad += not ok
+    cleanup_scratch()
     return 1 if bad else 0
